@@ -10,9 +10,9 @@ ID = "C11"
 BIN = "c11"
 PROOF_MODULES = ["Compute.Props.C11"]
 REQUIRED_THEOREMS = [
-    "Cv.C11.lu_pivots_perm", "Cv.C11.det_spec", "Cv.C11.lu_det_spec", "Cv.C11.parity_legacy_wrong",
+    "Cv.C11.cholesky_shape", "Cv.C11.cholesky_cell_rejects_iff", "Cv.C11.lu_pivots_perm", "Cv.C11.det_spec", "Cv.C11.lu_det_spec", "Cv.C11.parity_legacy_wrong",
     "Cv.C11.parity_correct_le6", "Cv.C11.matrix_lu_eq_slice", "Cv.C11.matrix_luSolve_eq_slice",
-    "Cv.C11.matrix_cholesky_eq_slice", "Cv.C11.cholesky_rejects_indefinite_witness",
+    "Cv.C11.matrix_cholesky_eq_slice", "Cv.C11.matrix_forward_eq_slice", "Cv.C11.matrix_backward_eq_slice", "Cv.C11.cholesky_rejects_indefinite_witness",
 ]
 RULE = ("orders 1..32 x {SPD to cond 1e8, symmetric indefinite with positive diagonal (float and integer), dense, "
         "integer, singular, rank-deficient, zero leading pivot, permutation matrices, triangular} x "
@@ -22,7 +22,9 @@ EXHAUSTIVE = {"quick": False, "thorough": False}
 NOT_PROVED = [
     "floating-point rounding of the reconstruction residuals (decided per run by the exact-arithmetic oracle)",
     "P*A = L*U and L*L^T = A in exact arithmetic for every order (T-B)",
-    "ipiv_parity = sign for permutations longer than 6 (exhaustive kernel check up to 6; oracle up to 40)",
+    "lu_multipliers_le_one (|l_ij| <= 1) as a theorem for every order (checked exactly by the oracle on every generated lu)",
+    "ipiv_parity = sign for permutations longer than 6 (exhaustive kernel check up to 6; oracle up to 40), "
+    "and that its inner loop never exhausts the model's fuel (never observed; the driver would answer `! diverged`)",
 ]
 TRUSTED = [
     "is_square modelled with an exact integer square root (f32 sqrt is exact below 2^24 elements)",
